@@ -2484,6 +2484,13 @@ def expr_calls(body, op, depth=6, seen=None):
     for o in origins(body, op):
         if o.kind == "call":
             out.add(o.name)
+            # min / max select one of their arguments: both feed the value
+            if strip_generics(o.name or "") in ("std::cmp::max", "std::cmp::min", "std::cmp::Ord::max", "std::cmp::Ord::min") and o.site is not None and depth > 0:
+                key = ("call", o.site.bb)
+                if key not in seen:
+                    seen.add(key)
+                    for x in o.site.args:
+                        out |= expr_calls(body, x, depth - 1, seen)
         elif o.kind == "const":
             out.add("const:%s" % o.name)
         elif o.kind in ("binop", "unop") and o.extra and depth > 0:
@@ -2525,9 +2532,63 @@ def ord8c_recovered_sequence(P, R, L, rule="ORD-8c"):
         R.analysed(u)
         sp = normal_sites(u, SET_PREV_SEQ)
         rw = normal_sites(u, "db::DB::recover_wal_records")
-        ok = bool(sp) and bool(rw) and all(any(o.kind == "call" and o.name == "db::DB::recover_wal_records" for o in origins(u, s.args[1])) for s in sp)
+        from ..dataflow import TRANSPARENT as _TR
+        _T3 = _TR | {"std::cmp::max", "std::cmp::Ord::max"}
+        ok = bool(sp) and bool(rw) and all(any(o.kind == "call" and o.name == "db::DB::recover_wal_records" for o in origins(u, s.args[1], transparent=_T3))
+                                            or "db::DB::recover_wal_records" in expr_calls(u, s.args[1]) for s in sp)
         R.check(rule, u.path + "|publishes-recovered-sequence", ok, where(u),
                 "the value published after replay comes from recover_wal_records' result", "")
+        # ... as a running maximum over all replayed logs (the last log may be empty), and never below the manifest's value
+        is_new = lambda os_: any(o.kind == "call" and o.name == "db::DB::recover_wal_records" for o in os_)
+        accs = set()
+        for s_ in sp:
+            accs |= {l for l in roots(u, s_.args[1]) if u.local_name(l) is not None and u.local_ty(l) == "u64"}
+        # an accumulator starts from a constant before the loop
+        accs = {a for a in accs if any(d[0] == "stmt" and d[3]["rv"]["k"] == "use" and d[3]["rv"]["ops"][0]["k"] == "const" and not in_cycle(u, d[1])
+                                       for d in u.defs().get(a, []))}
+        det = []
+        okm = bool(accs)
+        for a in accs:
+            grow = []
+            for c in comparisons(u):
+                l_acc = c.lhs["k"] in ("copy", "move") and a in roots(u, c.lhs)
+                r_acc = c.rhs["k"] in ("copy", "move") and a in roots(u, c.rhs)
+                l_new = not l_acc and is_new(c.lhs_origins())
+                r_new = not r_acc and is_new(c.rhs_origins())
+                if l_new and r_acc:        # new OP acc
+                    grow += [(c.bb, t) for t in (c.true_t if c.op in ("gt", "ge") else c.false_t if c.op in ("lt", "le") else [])]
+                elif l_acc and r_new:      # acc OP new
+                    grow += [(c.bb, t) for t in (c.true_t if c.op in ("lt", "le") else c.false_t if c.op in ("gt", "ge") else [])]
+            for d in u.defs().get(a, []):
+                if u.is_cleanup(d[1]) or not in_cycle(u, d[1]):
+                    continue
+                if d[0] == "call":
+                    nm = strip_generics(d[3].get("resolved") or d[3].get("callee") or "")
+                    if nm in ("std::cmp::max", "std::cmp::Ord::max"):
+                        continue
+                    okm = False
+                    det.append("line %s: the accumulator is overwritten by %s" % (d[3].get("line"), nm))
+                elif d[0] == "stmt":
+                    ops_ = d[3]["rv"].get("ops") or []
+                    if ops_ and ops_[0]["k"] in ("copy", "move") and origins(u, ops_[0]) and all(
+                            o.kind == "call" and strip_generics(o.name or "") in ("std::cmp::max", "std::cmp::Ord::max") for o in origins(u, ops_[0])):
+                        continue        # acc = max(acc, new)
+                    if not grow or not u.must_pass(d[1], through_edges=grow, start=_loop_head(u, d[1])):
+                        okm = False
+                        det.append("line %s: the accumulator is overwritten without the `new > accumulated` guard" % d[3].get("line"))
+        R.check(rule, u.path + "|running-maximum", okm, where(u),
+                "the recovered sequence is the maximum over all replayed logs: inside the loop it is only ever raised", "; ".join(det) or "accumulators %s" % sorted(accs))
+        prev_lt = []
+        for c in comparisons(u):
+            lo, ro = c.lhs_origins(), c.rhs_origins()
+            if any(o.kind == "call" and o.name == PREV_SEQ for o in lo) and c.rhs["k"] in ("copy", "move") and roots(u, c.rhs) & accs:
+                prev_lt += [(c.bb, t) for t in (c.true_t if c.op in ("lt", "le") else c.false_t if c.op in ("gt", "ge") else [])]
+            if any(o.kind == "call" and o.name == PREV_SEQ for o in ro) and c.lhs["k"] in ("copy", "move") and roots(u, c.lhs) & accs:
+                prev_lt += [(c.bb, t) for t in (c.true_t if c.op in ("gt", "ge") else c.false_t if c.op in ("lt", "le") else [])]
+        okp = bool(sp) and all((bool(prev_lt) and u.must_pass(s_.bb, through_edges=prev_lt)) or
+                                any(o.kind == "call" and (o.name or "").endswith("::max") for o in origins(u, s_.args[1])) for s_ in sp)
+        R.check(rule, u.path + "|never-lowers-the-sequence", okp, where(u),
+                "the published sequence is only raised above the manifest's value, never lowered", "guard edges %d" % len(prev_lt))
 
 
 def pair10_builder_slot(P, R, L, rule="PAIR-10"):
